@@ -1,4 +1,24 @@
+mod pcs;
+use vpe4::airs::BAir;
+use vpe4::{FriSpec, leaves, path_string};
+
 fn main() {
-    eprintln!("MACHINERY-ERROR: check c07 not built yet");
-    std::process::exit(2);
+    vpcore::install_quiet_panic_hook();
+    let fs = FriSpec { tag: "b1f1a2q2c1w2", log_blowup: 1, log_final_poly_len: 1, max_log_arity: 2, num_queries: 2, commit_pow_bits: 1, query_pow_bits: 2, cap_height: 0 };
+    let airs = vec![BAir::Mul { degree: 2, rows: 32, reps: 9 }, BAir::Fib, BAir::AddNoNext];
+    let t0 = std::time::Instant::now();
+    let fx = vpe4::families::bb::batch_fixture(airs, "m9_5.fib_3.addnn_2", vec![32, 8, 4], fs).unwrap();
+    println!("{} made in {:?}", fx.name, t0.elapsed());
+    let t0 = std::time::Instant::now();
+    println!("native {:?} {:?}", fx.native_verify(&fx.honest), t0.elapsed());
+    let t0 = std::time::Instant::now();
+    println!("circuit {:?} {:?}", fx.circuit_verify(&fx.honest), t0.elapsed());
+    let t0 = std::time::Instant::now();
+    println!("circuit {:?} {:?}", fx.circuit_verify(&fx.honest), t0.elapsed());
+    let all = leaves(&fx.honest);
+    let mut classes = std::collections::BTreeMap::new();
+    for l in &all { *classes.entry(l.class.clone()).or_insert(0u64) += 1; }
+    println!("{} leaves", all.len());
+    for (k, v) in classes { println!("{v:6} {k}"); }
+    println!("{}", path_string(&all[0].path));
 }
